@@ -78,8 +78,12 @@ def make_ops(rng, cfg, profile, tier):
                 ops.append({'op': 'CHANGE_INIT_KEPT', 'a': [rng.randrange(64), rng.randrange(1 << 16)]})
             elif r < 0.79:
                 ops.append({'op': 'ESTIMATE_CATALOG', 'a': [rng.randrange(4)]})
-            elif r < 0.9:
+            elif r < 0.87:
                 ops.append({'op': 'LLD', 'a': [rng.randrange(64), rng.randrange(1 << 16), rng.random() < 0.3, True, True]})
+            elif r < 0.9:
+                # the number of threads is changed on an object between two uses, and values are simulated with it
+                ops.append({'op': 'SET_THREADS', 'a': [-1, rng.choice(tchoices)]})
+                ops.append({'op': 'SIM', 'a': [-1, rng.randrange(1 << 16) % 5]})
             else:
                 ops.append({'op': 'FRESH', 'a': [rng.choice(tchoices)]})
         return ops
@@ -783,11 +787,14 @@ class Session:
             if self.cfg['K'] < 2:
                 ctx.log(kind, 'skip')
             else:
-                rec = self.make_object(1, None)
+                # ... or (buggify) the first estimation leaves its saved iterations behind and the re-specified model is
+                # estimated in the same directory while iterations are saved
+                via_iter = bool((a[0] // self.cfg['K']) % 2)
+                rec = self.make_object(1, None, save=via_iter)
                 self.objects.pop()
                 b = rec['b']
                 b.modelName = 'recyc'
-                b.biogeme_parameters.set_value('generate_pickle', True)
+                b.biogeme_parameters.set_value('generate_pickle', not via_iter)
                 b.biogeme_parameters.set_value('optimization_algorithm', 'simple_bounds')
                 b.estimate()
                 nm_ = self.cfg['names'][a[0] % self.cfg['K']]
@@ -796,13 +803,28 @@ class Session:
                 for f_ in rec2['b'].formulas.values():
                     f_.fix_betas({nm_: a[1]})
                 import biogeme.biogeme as bio
-                b2 = bio.BIOGEME(rec2['b'].database, rec2['b'].formulas, parameters=self._params(1))
+                b2 = bio.BIOGEME(rec2['b'].database, rec2['b'].formulas, parameters=self._params(1, via_iter))
                 b2.modelName = 'recyc'
-                r2 = b2.estimate(recycle=True)
+                b2.biogeme_parameters.set_value('optimization_algorithm', 'simple_bounds')
+                r2 = b2.estimate(recycle=not via_iter)
                 beta_obj = rec2['betas'][nm_]
                 if beta_obj.initValue != a[1] or beta_obj.status == 0:
-                    ctx.fail('I07.writeback', f'recycled estimation changed the fixed parameter {nm_} from {a[1]!r} to '
+                    ctx.fail('I07.writeback', f'{"estimation restarted from saved iterations" if via_iter else "recycled estimation"} '
+                                              f'changed the fixed parameter {nm_} from {a[1]!r} to '
                                               f'{beta_obj.initValue!r} (status {beta_obj.status})')
+                if via_iter:
+                    est2 = {n: float(v) for n, v in r2.get_beta_values().items()}
+                    if nm_ in est2:
+                        ctx.fail('I07.writeback', f'the fixed parameter {nm_} is listed among the estimates')
+                    x2 = {n: (a[1] if n == nm_ else est2[n]) for n in self.names}
+                    want2, _, _ = self.ref_ll(x2, rec2['table'])
+                    self._cmp(f'estimation with {nm_} fixed, restarted from the iterations saved when it was free: reported log '
+                              'likelihood vs the likelihood at the returned estimates and the fixed value',
+                              float(r2.data.logLike), want2, rel=1e-7, oracle='I07.recompute')
+                    ctx.probe('restricted model restarted from the saved iterations of the full one')
+                    for f_ in ('__recyc.iter',):
+                        if os.path.exists(f_):
+                            os.remove(f_)
                 ctx.log(kind, nm_, a[1])
         elif kind == 'RECYCLE_PREFIX':
             # two models saved in one directory, the name of one being the beginning of the name of the other: recycling
